@@ -42,6 +42,20 @@ DIRECTED = [
         _a("ChildRes", c="B", p="A", res=["p1", "p2"]), _a("RepoSyncAll"),
         _a("Settle"), _a("ChildRemove", c="C", p="B"), _a("Settle"),
         _a("Restart"), _a("Settle"), _a("DeleteCa", c="C"), _a("Settle")]},
+    # an exchange that consists of a revocation request only (after a key
+    # activation) and fails because the parent has removed the child: the
+    # report must say failure -- nothing else is sent in that exchange that
+    # could say otherwise --, also after a restart; then the child is a
+    # child again and the exchange succeeds
+    {"actions": [
+        _a("AddCa", c="B", p="A", res=["p1", "p2"]), _a("Settle"),
+        _a("RoaAdd", c="B", r=["p1", "a1"]), _a("Settle"),
+        _a("RollInit", c="B"), _a("Settle"),
+        _a("RollActivate", c="B"),
+        _a("ChildRemove", c="B", p="A"),
+        _a("Step", task="sync_B_with_parent_A"),
+        _a("Restart"),
+        _a("Step", task="sync_repo_B"), _a("Settle")]},
 ]
 
 RULE = (
